@@ -32,13 +32,16 @@ def _parents(root):
 class FuncOrder(object):
     """Analysis of one function (or module-level code)"""
 
-    def __init__(self, graph, f, returns_unordered, module_sets):
+    def __init__(self, graph, f, returns_unordered, module_sets, param_unordered=None, class_attrs=None):
+        self.param_unordered = param_unordered if param_unordered is not None else {}
+        self.class_attrs = class_attrs if class_attrs is not None else set()  # {(mod, class qualname, attr)} set-valued instance attributes
+        self.propagate = []  # (callee id, parameter name) discovered at call sites of this function
         self.g, self.f = graph, f
         self.returns_unordered = returns_unordered  # set of func ids whose result is unordered
         self.module_sets = module_sets  # {(mod, name)} module-level names bound to sets
         self.own = termination._own_nodes(f) if f.qual != "<module>" else _module_level_only(f.node)
         self.par = _parents(f.node)
-        self.unordered_names = set()
+        self.unordered_names = set(self.param_unordered.get(f.id, ()))
         self._infer_names()
 
     # -------------------------------------------------------------- which expressions are unordered
@@ -50,7 +53,7 @@ class FuncOrder(object):
             fn = e.func
             name = fn.id if isinstance(fn, ast.Name) else (fn.attr if isinstance(fn, ast.Attribute) else None)
             if name in ("set", "frozenset") and isinstance(fn, ast.Name) and name not in self.f.locals:
-                return True
+                return bool(e.args)  # the empty set has no order to leak
             if isinstance(fn, ast.Attribute) and fn.attr in ("union", "intersection", "difference", "symmetric_difference") and self.is_unordered(fn.value):
                 return True
             if name in UNORDERED_PRESERVING and e.args and self.is_unordered(e.args[-1]):
@@ -82,6 +85,9 @@ class FuncOrder(object):
                 m, _, n = d.rpartition(".")
                 if (m, n) in self.module_sets:
                     return True
+        if isinstance(e, ast.Attribute) and isinstance(e.value, ast.Name) and e.value.id == "self" and self.f.cls is not None \
+                and (self.f.mod, self.f.cls, e.attr) in self.class_attrs and isinstance(e.ctx, ast.Load):
+            return True
         if isinstance(e, ast.Attribute):
             d = self.g.dotted_of(self.f.mod, e, self.f.locals)
             if d:
@@ -208,7 +214,23 @@ class FuncOrder(object):
             return True, "bound as an argument of %s (membership helpers)" % name
         if name in SENSITIVE_CALLS or (isinstance(fn, ast.Attribute) and fn.attr in ("join", "extend", "fromkeys")):
             return False, "%s() consumes the set in hash order" % name
-        # a repo function: its parameter becomes unordered there; assumed order-insensitive unless known otherwise
+        # a repo function / class: its parameter becomes unordered THERE and is analysed under that typing
+        d = self.g.dotted_of(self.f.mod, fn, self.f.locals) if isinstance(fn, (ast.Name, ast.Attribute)) else None
+        tid = self.g.resolve_dotted(d) if d else None
+        if tid is not None:
+            target = tid if tid in self.g.funcs else (tid + ".__init__" if tid + ".__init__" in self.g.funcs else None)
+            if target is not None:
+                tnode = self.g.funcs[target].node
+                names = [a.arg for a in tnode.args.posonlyargs + tnode.args.args]
+                if target.endswith(".__init__") and names and names[0] == "self":
+                    names = names[1:]
+                pname = kw
+                if pname is None:
+                    idx = next((i for i, a in enumerate(call.args) if a is n), None)
+                    pname = names[idx] if idx is not None and idx < len(names) else None
+                if pname is not None:
+                    self.propagate.append((target, pname))
+                    return True, "callee %s is analysed with parameter `%s` typed unordered" % (target.split(":")[-1], pname)
         return True, "ASSUMED: callee %s treats this argument order-insensitively" % (name or "<expr>")
 
     @staticmethod
@@ -290,10 +312,31 @@ def order_obligations(graph):
                 changed = True
         if not changed:
             break
+    # interprocedural typing: parameters that receive a set, instance attributes assigned from such a parameter
+    param_unordered, class_attrs = {}, set()
+    for _ in range(6):
+        changed = False
+        for fid, f in graph.funcs.items():
+            fo = FuncOrder(graph, f, returns_unordered, msets, param_unordered, class_attrs)
+            fo.sites()
+            for target, pname in fo.propagate:
+                if pname not in param_unordered.setdefault(target, set()):
+                    param_unordered[target].add(pname)
+                    changed = True
+            if f.cls is not None and f.qual != "<module>":
+                for n in fo.own:
+                    if isinstance(n, ast.Assign) and len(n.targets) == 1 and isinstance(n.targets[0], ast.Attribute) and isinstance(n.targets[0].value, ast.Name) \
+                            and n.targets[0].value.id == "self" and fo.is_unordered(n.value):
+                        key = (f.mod, f.cls, n.targets[0].attr)
+                        if key not in class_attrs:
+                            class_attrs.add(key)
+                            changed = True
+        if not changed:
+            break
     obs, assumed = [], []
     n_sites = 0
     for fid, f in sorted(graph.funcs.items()):
-        fo = FuncOrder(graph, f, returns_unordered, msets)
+        fo = FuncOrder(graph, f, returns_unordered, msets, param_unordered, class_attrs)
         counts = {}
         for node, ok, why in fo.sites():
             n_sites += 1
@@ -307,7 +350,9 @@ def order_obligations(graph):
             if ok and why.startswith("ASSUMED"):
                 assumed.append("%s line %d: %s" % (fid, node.lineno, why))
             obs.append((name, bool(ok), "line %d: %s" % (node.lineno, why)))
-    return obs, assumed, {"set_valued_sites": n_sites, "functions_returning_sets": sorted(returns_unordered)}
+    return obs, assumed, {"set_valued_sites": n_sites, "functions_returning_sets": sorted(returns_unordered),
+                          "parameters_typed_unordered": {k: sorted(v) for k, v in sorted(param_unordered.items())},
+                          "instance_attributes_typed_unordered": sorted(".".join(k) for k in class_attrs)}
 
 
 # ---------------------------------------------------------------------------------- cross-call state
